@@ -19,7 +19,7 @@ func c34(c *vc.Ctx) {
 	alphabet := []string{"a=1", "a=2", "ab=3", "a-b=4", "a.b=5", "b=", "=x", "a", "A=6", "a=b=c", "", "a>=7", "a=", "B=8", "a1=9"}
 	probes := []string{"a", "ab", "a-b", "a.b", "b", "A", "", "c", "a>", "B", "a1", "a\x00"}
 	maxLen := vc.Pick(c, 4, 5)
-	c.Rule = fmt.Sprintf("all lists of <=%d pairs over %q; Get probed with %q, Each compared with a Go map model (last wins, invalid dropped, sorted, unique); distinct = distinct (surviving map) contents", maxLen, alphabet, probes)
+	c.Rule = fmt.Sprintf("all lists of <=%d pairs over %q, every list of length 13 (thorough: and 14) over the names a/ab/b with the position as value, and 612 structured long lists (12..300 pairs, 1..13 distinct names, 6 orders); Get probed with %q, Each compared with a Go map model (last wins, invalid dropped, sorted, unique); distinct = distinct (surviving map) contents", maxLen, alphabet, probes)
 	type cs struct {
 		Pairs []string `json:"pairs"`
 	}
@@ -27,6 +27,59 @@ func c34(c *vc.Ctx) {
 		enum.Seqs(alphabet, maxLen, func(s []string) {
 			emit(cs{append([]string(nil), s...)})
 		})
+		// Long lists: sorting algorithms switch strategy with the length (Go's
+		// pdqsort uses insertion sort up to 12 elements), and "last value wins"
+		// depends on the sort keeping equal names in order. Every list of
+		// length 13 (thorough: 13 and 14) over three colliding names, the
+		// value being the position, so every duplicate is distinguishable.
+		names := []string{"a", "ab", "b"}
+		for _, n := range vc.Pick(c, []int{13}, []int{13, 14}) {
+			idx := make([]int, n)
+			for {
+				pairs := make([]string, n)
+				for i, k := range idx {
+					pairs[i] = fmt.Sprintf("%s=%d", names[k], i)
+				}
+				emit(cs{pairs})
+				i := n - 1
+				for i >= 0 && idx[i] == len(names)-1 {
+					idx[i] = 0
+					i--
+				}
+				if i < 0 {
+					break
+				}
+				idx[i]++
+			}
+		}
+		// Structured long lists: k distinct names repeated in several orders,
+		// for lengths around every threshold up to 300.
+		for _, n := range []int{12, 13, 16, 17, 20, 32, 33, 49, 50, 51, 64, 65, 100, 128, 129, 257, 300} {
+			for _, k := range []int{1, 2, 3, 5, 8, 13} {
+				for order := 0; order < 6; order++ {
+					pairs := make([]string, n)
+					for i := range pairs {
+						var j int
+						switch order {
+						case 0:
+							j = i % k // ascending cycle
+						case 1:
+							j = k - 1 - i%k // descending cycle
+						case 2:
+							j = i * k / n // blocks
+						case 3:
+							j = (i * 7) % k // stride
+						case 4:
+							j = (i / 2) % k // pairs
+						case 5:
+							j = (n - 1 - i) * k / n // descending blocks
+						}
+						pairs[i] = fmt.Sprintf("v%02d=%d", j, i)
+					}
+					emit(cs{pairs})
+				}
+			}
+		}
 	}, func(t cs) *vc.Fail {
 		model := map[string]string{}
 		for _, p := range t.Pairs {
@@ -38,7 +91,16 @@ func c34(c *vc.Ctx) {
 		}
 		env := expand.ListEnviron(t.Pairs...)
 		key := fmt.Sprintf("%q", t.Pairs)
-		for _, n := range probes {
+		allProbes := probes
+		if len(t.Pairs) > maxLen {
+			allProbes = nil
+			for n := range model {
+				allProbes = append(allProbes, n)
+			}
+			sort.Strings(allProbes)
+			allProbes = append(allProbes, "zz", "v", "a=")
+		}
+		for _, n := range allProbes {
 			vr := env.Get(n)
 			want, ok := model[n]
 			if vr.IsSet() != ok || (ok && (vr.Str != want || vr.Kind != expand.String || !vr.Exported)) {
